@@ -4,12 +4,49 @@
 open Conv
 open Topic
 open TopicLife
+open TopicOffSetC03
 
-let xs : xstate ref = ref (xinit R_topic.empty_store)
+(* the wrapper state of Sys/TopicOffSetC03.v (TopicLife.xstate + the stored Private of every row) *)
+let zs : ozstate_c03 ref = ref (ozinit_c03 (xinit R_topic.empty_store))
 let sm : (BinNums.coq_N * BinNums.coq_N) list ref = ref []
+let roots : BinNums.coq_N list ref = ref []
 let opi = ref 0
 
-let set_store (s : store) = xs := { !xs with xb = { !xs.xb with st = s } }
+let get_x () : xstate = !zs.oz_x
+let set_x (x : xstate) = zs := { !zs with oz_x = x }
+let set_store (s : store) = let x = get_x () in set_x { x with xb = { x.xb with st = s } }
+
+let split_kind (k : string) : string * TopicOboC04.obo_c04 * bool =
+  match String.index_opt k '@' with
+  | None -> (k, TopicOboC04.OboNone, false)
+  | Some i ->
+    let kind = String.sub k 0 i and ob = String.sub k (i + 1) (String.length k - i - 1) in
+    (kind, (if ob = "x" then TopicOboC04.OboJunk else TopicOboC04.OboUser (n_of_string ob)), true)
+
+(* <priv>: - | L<n> | M<k>:<v|d|n>,... *)
+let parse_priv (p : string) : preq_c03 =
+  if p = "-" || p = "" then PrNil
+  else if p.[0] = 'L' then PrLeaf (n_of_string (String.sub p 1 (String.length p - 1)))
+  else
+    let body = String.sub p 1 (String.length p - 1) in
+    let ents = if body = "" then [] else String.split_on_char ',' body in
+    PrMap (List.map (fun e ->
+      match String.split_on_char ':' e with
+      | [k; "d"] -> (n_of_string k, PeDel)
+      | [k; "n"] -> (n_of_string k, PeNull)
+      | [k; v] -> (n_of_string k, PeVal (n_of_string v))
+      | _ -> failwith "priv") ents)
+
+let canon_priv (v : pval_c03) : string =
+  match v with
+  | PvNil -> ""
+  | PvLeaf t -> "L" ^ string_of_n t
+  | PvMap m ->
+    "M" ^ String.concat ";" (List.map (fun (k, t) -> string_of_int k ^ ":" ^ string_of_n t)
+             (List.sort compare (List.map (fun (k, t) -> (int_of_n k, t)) m)))
+
+let offreq target mode priv : offreq_c03 =
+  { or_target = n_of_string target; or_mode = bytes_of_hex mode; or_priv = parse_priv priv }
 
 let sorted_ns (l : BinNums.coq_N list) : string =
   String.concat "," (List.map string_of_int (List.sort_uniq compare (List.map int_of_n l)))
@@ -18,32 +55,37 @@ let handle (w : string list) : string =
   match w with
   | "scn" :: id :: rest ->
     let gn k = n_of_string (List.assoc k (List.map R_topic.kv rest)) in
-    opi := 0; sm := [];
+    opi := 0; sm := []; roots := [];
     let s0 = { R_topic.empty_store with t_exists = true; t_auth = gn "auth"; t_anon = gn "anon" } in
     let s1 = ad_sub_create s0 (gn "owner") (gn "ownerwant") (gn "ownergiven") in
-    xs := xinit s1;
+    zs := ozinit_c03 (xinit s1);
     "scn " ^ id
   | ["user"; i; acc] ->
-    let s = !xs.xb.st in
+    let s = (get_x ()).xb.st in
     let acc = n_of_string (snd (R_topic.kv acc)) in
     set_store { s with users = s.users @ [(n_of_string i, acc)] }; ""
   | ["subrow"; i; want; given] ->
-    set_store (ad_sub_create !xs.xb.st (n_of_string i) (n_of_string (snd (R_topic.kv want))) (n_of_string (snd (R_topic.kv given)))); ""
+    set_store (ad_sub_create (get_x ()).xb.st (n_of_string i) (n_of_string (snd (R_topic.kv want))) (n_of_string (snd (R_topic.kv given)))); ""
   | ["sysrow"; u] ->
     (* user u has a live subscription row on 'sys' (ModeCSys/ModeCSys): he is in sys.perUser *)
-    xs := { !xs with x_sys_subs = !xs.x_sys_subs @ [n_of_string u] }; ""
+    let x = get_x () in set_x { x with x_sys_subs = x.x_sys_subs @ [n_of_string u] }; ""
   | ["p2prow"; _k; a; b; wa; ga; wb; gb] ->
     (* the k-th peer-to-peer topic: topic row + the two subscription rows (store.Topics.CreateP2P) *)
     let v x = n_of_string (snd (R_topic.kv x)) in
-    let s0 = { R_topic.empty_store with t_exists = true; users = !xs.xb.st.users } in
+    let x = get_x () in
+    let s0 = { R_topic.empty_store with t_exists = true; users = x.xb.st.users } in
     let s1 = ad_sub_create (ad_sub_create s0 (n_of_string a) (v wa) (v ga)) (n_of_string b) (v wb) (v gb) in
-    xs := { !xs with x_p2p = !xs.x_p2p @ [{ pt_b = { st = s1; ca = None; ncalls = Datatypes.O }; pt_ro = false }] }; ""
+    zs := { !zs with oz_x = { x with x_p2p = x.x_p2p @ [{ pt_b = { st = s1; ca = None; ncalls = Datatypes.O }; pt_ro = false }] };
+                     oz_ppriv = !zs.oz_ppriv @ [[]] }; ""
   | ["sess"; sid; u] -> sm := !sm @ [(n_of_string sid, n_of_string u)]; ""
-  | "op" :: flt :: kind :: args ->
+  | ["sess"; sid; u; "r"] -> sm := !sm @ [(n_of_string sid, n_of_string u)]; roots := !roots @ [n_of_string sid]; ""
+  | "op" :: flt :: kind0 :: args ->
     incr opi;
+    let (kind, ob, has_obo) = split_kind kind0 in
     let n = n_of_string and z = z_of_string in
     let f = R_topic.parse_fault flt in
-    let base o = EBase (f, o) in
+    let base o = if has_obo then ZObo (ob, f, o) else ZX (EBase (f, o)) in
+    let zx e = ZX e in
     let e = match kind, args with
       | "sub", [sid; want; bkg] -> base (OSub (n sid, bytes_of_hex want, bkg = "1"))
       | "leave", [sid; unsub] -> base (OLeave (n sid, unsub = "1"))
@@ -58,28 +100,34 @@ let handle (w : string list) : string =
       | "delsub", [sid; target] -> base (ODelSub (n sid, n target))
       | "unload", [] -> base OUnload
       | "restart", [] -> base ORestart
-      | "delbegin", [sid] -> EDelBegin (f, n sid)
-      | "delend", [] -> EDelEnd
-      | "suspend", [u; b] -> ESuspend (f, n u, b = "1")
-      | "subme", [sid] -> ESubMe (n sid)
-      | "subfnd", [sid] -> ESubFnd (n sid)
-      | "pubme", [sid; content] -> EPubMe (n sid, n content)
-      | "pubfnd", [sid; content] -> EPubFnd (n sid, n content)
-      | "pubsys", [sid; content] -> EPubSys (f, n sid, n content)
-      | "p2psub", [sid; k] -> EP2P (nat_of_int (int_of_string k - 1), f, PSub (n sid))
-      | "p2pleave", [sid; k] -> EP2P (nat_of_int (int_of_string k - 1), f, PLeave (n sid))
-      | "p2ppub", [sid; k; content; noecho] -> EP2P (nat_of_int (int_of_string k - 1), f, PPub (n sid, n content, noecho = "1"))
-      | "p2punload", [k] -> EP2P (nat_of_int (int_of_string k - 1), f, PUnload)
+      | "delbegin", [sid] -> zx (EDelBegin (f, n sid))
+      | "delend", [] -> zx (EDelEnd)
+      | "suspend", [u; b] -> zx (ESuspend (f, n u, b = "1"))
+      | "subme", [sid] -> zx (ESubMe (n sid))
+      | "subfnd", [sid] -> zx (ESubFnd (n sid))
+      | "pubme", [sid; content] -> zx (EPubMe (n sid, n content))
+      | "pubfnd", [sid; content] -> zx (EPubFnd (n sid, n content))
+      | "pubsys", [sid; content] -> zx (EPubSys (f, n sid, n content))
+      | "p2psub", [sid; k] -> zx (EP2P (nat_of_int (int_of_string k - 1), f, PSub (n sid)))
+      | "p2pleave", [sid; k] -> zx (EP2P (nat_of_int (int_of_string k - 1), f, PLeave (n sid)))
+      | "p2ppub", [sid; k; content; noecho] -> zx (EP2P (nat_of_int (int_of_string k - 1), f, PPub (n sid, n content, noecho = "1")))
+      | "p2punload", [k] -> zx (EP2P (nat_of_int (int_of_string k - 1), f, PUnload))
+      | "osetx", [sid; target; mode; priv] -> ZSet (f, n sid, offreq target mode priv)
+      | "p2posetx", [sid; k; mode; priv] -> ZSetP2P (nat_of_int (int_of_string k - 1), f, n sid, offreq "0" mode priv)
       | _ -> failwith ("bad op " ^ kind) in
     (* an event other than {pub} while the delete is held open first lets the hub finish it; the driver
        discards what that sends (it belongs to the delete, not to this request): same here *)
-    (match !xs.x_del, e with
-     | Some _, EBase (_, OPub (_, _, _)) -> ()
-     | Some _, EDelEnd -> ()
-     | Some _, _ -> xs := fst (TopicLifeInst.xstep_i !sm !xs EDelEnd)
+    (match (get_x ()).x_del, e with
+     | Some _, ZX (EBase (_, OPub (_, _, _))) -> ()
+     | Some _, ZObo (_, _, OPub (_, _, _)) -> ()
+     | Some _, ZX EDelEnd -> ()
+     | Some _, _ -> set_x (fst (TopicLifeInst.xstep_i !sm (get_x ()) EDelEnd))
      | None, _ -> ());
-    let (x1, outs) = TopicLifeInst.xstep_i !sm !xs e in
-    xs := x1;
+    (match ozstep_i_c03 !sm !roots !zs e with
+     | None -> "op " ^ string_of_int !opi ^ "\nUNMODELLED"
+     | Some (z1, outs) ->
+    zs := z1;
+    let x1 = z1.oz_x in
     let b = x1.xb in
     let lines = List.map (fun (sid, fr) -> "S" ^ string_of_n sid ^ " " ^ R_topic.frame_str fr) outs in
     let b2s = R_topic.b2s in
@@ -124,7 +172,17 @@ let handle (w : string list) : string =
             let users = String.concat "," (List.map (fun (u, (w, g)) -> Printf.sprintf "%d:%s/%s" u w g)
               (List.sort compare (List.map (fun (u, pd) -> (int_of_n u, (R_topic.mode_str pd.p_want, R_topic.mode_str pd.p_given))) c.c_users))) in
             Printf.sprintf "store p2p %d loaded=1 ro=%s seqid=%s lastid=%s users=%s sess=%s msgs=%s" (i + 1) (b2s p.pt_ro)
-              (string_of_z pb.st.t_seqid) (string_of_z c.c_lastid) users (sorted_ns (List.map fst c.c_sess)) msgs) x1.x_p2p)
+              (string_of_z pb.st.t_seqid) (string_of_z c.c_lastid) users (sorted_ns (List.map fst c.c_sess)) msgs) x1.x_p2p
+      @ List.sort compare (List.filter_map (fun (u, v) ->
+          let c = canon_priv v in
+          if c = "" then None else Some (Printf.sprintf "store priv %d %s" (int_of_n u) c)) z1.oz_gpriv)
+      @ List.mapi (fun i p ->
+          let pl = (try List.nth z1.oz_ppriv i with _ -> []) in
+          let pv u = (match List.assoc_opt u pl with Some v -> canon_priv v | None -> "") in
+          let rows = List.sort compare (List.map (fun r ->
+            Printf.sprintf "%d:%s/%s:%s%s" (int_of_n r.s_user) (R_topic.mode_str r.s_want) (R_topic.mode_str r.s_given) (pv r.s_user)
+              (if r.s_deleted then ":deleted" else "")) p.pt_b.st.subs) in
+          Printf.sprintf "store p2prows %d %s" (i + 1) (String.concat "," rows)) x1.x_p2p))
   | ["end"] -> "end"
   | [] -> ""
   | _ -> "?"
